@@ -29,7 +29,7 @@ func main() {
 	out := flag.String("out", "", "output dir")
 	replay := flag.String("replay", "", "replay file")
 	flag.Parse()
-	conc := *comp == "funnelconc"
+	conc := *comp == "funnelconc" || *comp == "funnelshared"
 	// Deterministic fan-out: one P, no asynchronous preemption, no GC cycles (see fanState).
 	if !conc && !strings.Contains(os.Getenv("GODEBUG"), "asyncpreemptoff=1") {
 		env := append(os.Environ(), "GODEBUG=asyncpreemptoff=1")
@@ -69,15 +69,37 @@ func main() {
 				continue
 			}
 			line, res, nt := runCase(c, nil, o, false)
-			_ = line
+			for try := 0; try < 8 && res == "skipped"; try++ {
+				line, res, nt = runCase(c, nil, o, false)
+			}
+			if res == "skipped" {
+				l = line
+			}
 			o.Case(l, res, nt)
 		}
 		return
 	}
 	r := gen.New(*seed)
+	if *comp == "funnelshared" {
+		for i := 0; i < *n; i++ {
+			lines, nt := runShared(gen.New(r.U64()), o)
+			for _, l := range lines {
+				o.Case(l, "ok", nt)
+			}
+		}
+		return
+	}
 	for i := 0; i < *n; i++ {
 		c := genCase(r, o, conc)
-		line, res, nt := runCase(c, gen.New(r.U64()), o, conc)
+		cs := r.U64()
+		line, res, nt := runCase(c, gen.New(cs), o, conc)
+		for try := 0; try < 8 && res == "skipped"; try++ {
+			// not a serial run (scheduler preemption under load): same case, same seeds, again
+			line, res, nt = runCase(c, gen.New(cs), o, conc)
+		}
+		if res == "skipped" {
+			o.Count("skipped-nonserial")
+		}
 		if conc {
 			// real goroutine interleavings: no model equality, the Lean monitors decide the trace
 			o.Case(line+" ## "+res, "ok", nt)
